@@ -122,8 +122,22 @@ func (sr *StyleResolver) Resolve(styleID string) *ResolvedStyle {
 		}
 	}
 
-	// Detect heading
-	resolved.IsHeading, resolved.HeadingLevel = sr.detectHeading(styleDef, resolved)
+	// Detect heading: the style's own declaration first, then the styles it is
+	// based on, nearest first (the outline level is inherited like any other
+	// paragraph property), and only then the formatting heuristic.
+	resolved.IsHeading, resolved.HeadingLevel = false, 0
+	declared := false
+	for i := len(chain) - 1; i >= 0 && !declared; i-- {
+		if def, ok := sr.styles[chain[i]]; ok {
+			resolved.IsHeading, resolved.HeadingLevel, declared = declaredHeading(def)
+		} else {
+			resolved.IsHeading, resolved.HeadingLevel = detectBuiltInHeading(chain[i])
+			declared = resolved.IsHeading
+		}
+	}
+	if !declared {
+		resolved.IsHeading, resolved.HeadingLevel = sr.detectHeading(styleDef, resolved)
+	}
 
 	// Cache and return
 	sr.resolved[styleID] = resolved
@@ -221,11 +235,13 @@ func (sr *StyleResolver) applyStyleDef(resolved *ResolvedStyle, def *styleDefXML
 	}
 }
 
-// detectHeading determines if a style represents a heading.
-func (sr *StyleResolver) detectHeading(def *styleDefXML, resolved *ResolvedStyle) (bool, int) {
+// declaredHeading reports what a single style definition says about being a
+// heading: by its built-in ID, its name, or its outline level. decided is false
+// when the definition says nothing (the styles it is based on decide then).
+func declaredHeading(def *styleDefXML) (isHeading bool, level int, decided bool) {
 	// Check for built-in heading style ID
 	if isHeading, level := detectBuiltInHeading(def.StyleID); isHeading {
-		return true, level
+		return true, level, true
 	}
 
 	// Check style name for heading patterns
@@ -234,18 +250,27 @@ func (sr *StyleResolver) detectHeading(def *styleDefXML, resolved *ResolvedStyle
 		// Try to extract level from name
 		for i := 1; i <= 9; i++ {
 			if strings.Contains(name, strconv.Itoa(i)) {
-				return true, i
+				return true, i, true
 			}
 		}
-		return true, 1 // Default to H1
+		return true, 1, true // Default to H1
 	}
 
 	// Check outline level
 	if def.PPr.OutlineLvl.Val != "" {
 		level := parseOutlineLevel(def.PPr.OutlineLvl.Val)
 		if level >= 0 && level <= 8 {
-			return true, level + 1 // OutlineLvl is 0-based
+			return true, level + 1, true // OutlineLvl is 0-based
 		}
+	}
+
+	return false, 0, false
+}
+
+// detectHeading determines if a style represents a heading.
+func (sr *StyleResolver) detectHeading(def *styleDefXML, resolved *ResolvedStyle) (bool, int) {
+	if isHeading, level, decided := declaredHeading(def); decided {
+		return isHeading, level
 	}
 
 	// Heuristic: large, bold text at start of document section might be heading
